@@ -669,11 +669,15 @@ def _parse_source_for_lambda(
     start_token = None
     source, lambda_line = _get_sourcelines(ast_source)
     t_stream = None
+    # A lambda can sit on the same line as a `def` (a one line function that contains the
+    # call): that `def` is not what was passed in.
+    is_lambda = getattr(ast_source, "__name__", None) == "<lambda>"
+    to_find = ["lambda"] if is_lambda else ["def", "lambda"]
     while func_name is None:
         # Setup the tokenizer
         t_stream = _token_runner(source, lambda_line)
 
-        func_name, start_token = t_stream.find_identifier(["def", "lambda"])
+        func_name, start_token = t_stream.find_identifier(to_find)
 
         if start_token is None:
             return None
